@@ -55,7 +55,7 @@ func checkC15(w *World, r *Report) {
 		"the cryptography: x509 CheckSignature, sha256 and base64 are trusted; 'changing any of signature, address, reference id or link makes verification fail' beyond the dependence of the verified payload on all of them",
 	}
 	r.Rule("C15.writeonce", "P4,P5", "the payload-link prefix has one writer; at its only message call site it is dominated by the edge on which Get(same key) returned nil; no delete on that prefix exists anywhere in the module", 2)
-	r.Rule("C15.payload", "P6", "the verified payload is CalculateHash(HashConcat(address, referenceId, storedLink)) in this order, with the link looked up by the same reference id and the signature record looked up by CalculateHash(HashConcat(address, referenceId))", 4)
+	r.Rule("C15.payload", "P6", "the verified payload is CalculateHash(HashConcat(address, referenceId, storedLink)) in this order, with the link looked up by the same reference id and the signature record looked up by CalculateHash(HashConcat(address, referenceId)); record key, link key and payload use one and the same rendering of the reference id and of the address", 6)
 	r.Rule("C15.args", "P6", "the verifier hands the stored Signature (base64-decoded), Algorithm (mapped) and Certificate (parsed) to CheckSignature in the parameters of those roles, with the payload bytes as the signed content", 3)
 	r.Rule("C15.verdict", "P5", "the response with Valid=\"valid\" is dominated by the nil edge of the verifier's error; the verifier returns nil only on the nil edge of CheckSignature", 2)
 	r.Rule("C15.fields", "P8", "in the response, Signature, Algorithm, Certificate and Timestamp are sourced from the same-named fields of the stored record", 4)
@@ -321,6 +321,38 @@ func checkC15(w *World, r *Report) {
 		okReq := o.HasLeaf("param", ".QueryVerifySignatureRequest.TargetAccAddress") && o.HasLeaf("param", ".QueryVerifySignatureRequest.ReferenceId")
 		r.Check(ok && okLookup && okReq, "C15.payload", "record looked up under CalculateHash(HashConcat(address, referenceId))", w.Pos(gsCall.Instr.Pos()), "storage key derived from the request's address and reference id", "the signature record is looked up under a key not derived from (address, referenceId)")
 	}
+	// one rendering of the reference id (and of the address) everywhere: the record key, the link key and the
+	// payload must agree on the very same string, otherwise the signature found, the link found and the content
+	// verified belong to different registry entries
+	{
+		uses := map[string][]ssa.Value{"ReferenceId": {ga[len(ga)-1]}, "TargetAccAddress": {}}
+		if h, ok := isCallTo(pay, "util.CalculateHash"); ok {
+			if hc, ok := isCallTo(h.Common().Args[0], "util.HashConcat"); ok {
+				el := varargElems(hc.Common().Args[0])
+				if len(el) == 3 {
+					uses["TargetAccAddress"] = append(uses["TargetAccAddress"], el[0])
+					uses["ReferenceId"] = append(uses["ReferenceId"], el[1])
+				}
+			}
+		}
+		for _, fs := range FieldStores(ver) {
+			if namedIs(fs.Struct, "x/cfesignature/types", "QueryCreateStorageKeyRequest") {
+				if _, ok := uses[fs.Field]; ok {
+					uses[fs.Field] = append(uses[fs.Field], fs.Store.Val)
+				}
+			}
+		}
+		for _, f := range []string{"ReferenceId", "TargetAccAddress"} {
+			vs := uses[f]
+			same := len(vs) >= 2
+			for _, v := range vs[1:] {
+				if !sameExpr(vs[0], v, 0) {
+					same = false
+				}
+			}
+			r.Check(same, "C15.payload", "one rendering of the request's "+f+" in record key, link key and payload", w.Pos(ver.Pos()), fmt.Sprintf("%d uses, all the same value", len(vs)), "the record key, the link key and the verified payload are built from different renderings of "+f+": the signature, the link and the content checked can belong to different entries")
+		}
+	}
 	// ---------- C15.verdict ----------
 	for _, fs := range FieldStores(ver) {
 		if fs.Field == "Valid" {
@@ -432,4 +464,39 @@ func derefRootThroughLocal(v ssa.Value) ssa.Value {
 		}
 	}
 	return r
+}
+
+// sameExpr: the same SSA value, two loads of the same location, or two applications of the same function to
+// pairwise same arguments (depth <= 2).
+func sameExpr(a, b ssa.Value, depth int) bool {
+	if sameValue(a, b) {
+		return true
+	}
+	// two loads of the same field of the same base
+	if ua, ok := a.(*ssa.UnOp); ok && ua.Op == token.MUL {
+		if ub, ok := b.(*ssa.UnOp); ok && ub.Op == token.MUL {
+			fa, ok1 := ua.X.(*ssa.FieldAddr)
+			fb, ok2 := ub.X.(*ssa.FieldAddr)
+			if ok1 && ok2 && fa.Field == fb.Field && fa.X == fb.X {
+				return true
+			}
+		}
+	}
+	if depth >= 2 {
+		return false
+	}
+	ca, ok1 := a.(*ssa.Call)
+	cb, ok2 := b.(*ssa.Call)
+	if !ok1 || !ok2 || ca.Common().StaticCallee() == nil || ca.Common().StaticCallee() != cb.Common().StaticCallee() {
+		return false
+	}
+	if len(ca.Common().Args) != len(cb.Common().Args) {
+		return false
+	}
+	for i := range ca.Common().Args {
+		if !sameExpr(ca.Common().Args[i], cb.Common().Args[i], depth+1) {
+			return false
+		}
+	}
+	return true
 }
